@@ -1,8 +1,9 @@
 //! C09 — Relational transactions are all-or-nothing and writers exclude each other.
 //!
 //! Parts:
-//!  * `interleave`  programs of up to 40 operations over one table whose hash / btree indexes are drawn
-//!                  and changed mid-program: up to 4 concurrently open transactions interleaved at
+//!  * `interleave`  programs of up to 40 operations over two tables of the same shape (`t`, used by three
+//!                  statements out of four, and `w`, which hands out the same row ids) whose hash / btree
+//!                  indexes are drawn and changed mid-program: up to 4 concurrently open transactions interleaved at
 //!                  statement granularity (tx_insert / tx_update / tx_delete / tx_select / commit /
 //!                  rollback), non-transactional insert / update / delete_rows / select in between, and
 //!                  calls on finished handles. Oracle: a model holding the physical image, the row locks
@@ -26,7 +27,7 @@ fn main() {
     main_for(PropDef {
         id: "C09",
         level: "exploration",
-        rule: "interleave: a program of <=40 (quick) / <=60 (thorough) operations over <=4 concurrently open transactions, non-transactional statements, finished-handle calls and index DDL on one table (a Int 0..3, b nullable Int 0..2, s String of 3, plus _id; each column draws no / hash / btree / both indexes); non-trivial = the program contains a rollback of a transaction that executed >= 2 different kinds of effective statements (insert / update of >=1 row / delete of >=1 row) while the table has at least one index, or a statement that was refused with LockConflict. expiry0/expiry1: two writers on overlapping rows with a 0 s / 1 s lock timeout; non-trivial = a LockConflict was observed before the sleep (expiry1 only; expiry0 makes no first attempt). distinct = distinct generated case (hash of its JSON).",
+        rule: "interleave: a program of <=40 (quick) / <=60 (thorough) operations over <=4 concurrently open transactions, non-transactional statements, finished-handle calls and index DDL on two tables t and w of the same shape (a Int 0..3, b nullable Int 0..2, s String of 3, plus _id; each column of each table draws no / hash / btree / both indexes; 3 of 4 statements address t); non-trivial = the program contains a rollback of a transaction that executed >= 2 different kinds of effective statements (insert / update of >=1 row / delete of >=1 row) on a table that has at least one index at that moment, or a statement that was refused with LockConflict. expiry0/expiry1: two writers on overlapping rows (or, in 20%, on equal row ids of the other table) with a 0 s / 1 s lock timeout; non-trivial = a LockConflict was observed before the sleep (expiry1 only; expiry0 makes no first attempt). distinct = distinct generated case (hash of its JSON).",
         assumptions: vec![
             "single thread; statements of different transactions interleave at statement granularity (each tx_* call is one step)",
             "the table image is physical (uncommitted changes in place, as the anchored mechanism describes); what tx_select shows of another open transaction's changes is not checked",
